@@ -215,6 +215,10 @@ def _gen_plan(rng):
         return {"result_file": "missing", "stdout": "empty"}
     if r < 0.58:
         return {"result_file": "deleted", "stdout": "empty"}
+    if r < 0.62:
+        # not a failure either: the answer is complete, only the input
+        # file has been removed by the time the solver returns
+        return {"input_file": "deleted"}
     if r < 0.70:
         # not a failure at all: the solver answers as soon as it meets an
         # empty clause and exits without reading the rest of its input
@@ -620,9 +624,11 @@ def _one_call(case, ctx, F, c, ci, route, plan, tmp, ref_verdict, clauses, n,
         bad("witness-not-ordered-by-variable", "%r" % (A,))
     # the solver's model, possibly completed on variables that occur in no
     # clause (some solvers do not print those)
-    if not set(rec["model"]) <= set(A) or len(A) not in (len(rec["model"]),
-                                                         n) or \
-            [abs(x) for x in A] != list(range(1, len(A) + 1)):
+    occ = set(abs(l) for c in clauses for l in c)
+    if not set(rec["model"]) <= set(A) or \
+            len(set(abs(x) for x in A)) != len(A) or \
+            any(not 1 <= abs(x) <= n for x in A) or \
+            not occ <= set(abs(x) for x in A):
         bad("witness-differs-from-solver-model", "solver printed %r, got %r"
             % (rec["model"], A))
     if not cnfref.satisfies(clauses, A):
@@ -645,8 +651,12 @@ def _check_witness_if_any(res, c, rec, clauses, n, bad):
             isinstance(val, tuple) and len(val) == 2 and val[0] is True):
         return
     A = val[1]
-    if not isinstance(A, list) or [abs(x) for x in A] != list(
-            range(1, n + 1)) or not cnfref.satisfies(clauses, A):
+    occ = set(abs(l) for c in clauses for l in c)
+    if not isinstance(A, list) or \
+            [abs(x) for x in A] != sorted(set(abs(x) for x in A)) or \
+            any(not 1 <= abs(x) <= n for x in A) or \
+            not occ <= set(abs(x) for x in A) or \
+            not cnfref.satisfies(clauses, A):
         bad("incomplete-witness-returned", "the solver did not deliver a "
             "complete model, yet solve() returned the assignment %r for a "
             "formula with %d variables" % (A, n))
